@@ -30,8 +30,254 @@ use rustic_core::{
 use verif_harness::*;
 
 mod e2e {
-    pub fn main(_path: &str) {
-        println!("end");
+    //! End-to-end driver: one case per line
+    //!   seed comp(-1 none) datapack treepack chunk nfiles maxsize steps...
+    //! steps: B (mutate source + backup) | F (forget oldest snapshot) | Pf / Pr (prune, repack fast / re-encoding,
+    //! repack_all) | C (copy all snapshots into a fresh second repository, dumped with tag c) | D (dump)
+    //! | R<mask> (remove index files selected by the bits of mask, 0 = all; repair_index; dump; check; digests)
+    //! | T (put a 3-byte pack into the backend, run repair_index, report) .
+    //! Output: lines `pack`, `implff`, `index`, `snap`, `check`, `note`, terminated by `end <ok|panic|error..>`.
+    use super::*;
+    use rustic_core::repofile::{IndexFile, SnapshotFile, Chunker};
+    use rustic_core::{
+        BackupOptions, CheckOptions, ConfigOptions, Credentials, KeyOptions, LimitOption, LsOptions, OpenStatus, PathList,
+        PruneOptions, RepairIndexOptions, Repository, RepositoryBackends, RepositoryOptions,
+    };
+    use rustic_testing::backend::in_memory_backend::InMemoryBackend;
+    use sha2::{Digest, Sha256};
+    use std::io::{BufRead, Write};
+
+    type Repo = Repository<OpenStatus>;
+
+    fn new_repo(comp: i64, dpack: u64, tpack: u64, chunk: u64) -> anyhow::Result<(Arc<InMemoryBackend>, Repo)> {
+        let be = Arc::new(InMemoryBackend::new());
+        let bes = RepositoryBackends::new(be.clone(), None);
+        let repo = Repository::new(&RepositoryOptions::default(), &bes)?;
+        let mut co = ConfigOptions::default()
+            .set_chunker(Chunker::FixedSize)
+            .set_chunk_size(bytesize::ByteSize(chunk))
+            .set_datapack_size(bytesize::ByteSize(dpack))
+            .set_treepack_size(bytesize::ByteSize(tpack))
+            .set_datapack_growfactor(0u32)
+            .set_treepack_growfactor(0u32);
+        // compression level 0 switches compression off in a version-2 repository
+        co = co.set_compression(if comp >= 0 { comp as i32 } else { 0 });
+        let repo = repo.init(&Credentials::Masterkey(MasterKey::new()), &KeyOptions::default(), &co)?;
+        Ok((be, repo))
+    }
+
+    fn sha(b: &[u8]) -> String {
+        hex::encode(Sha256::digest(b))
+    }
+
+    fn dump(out: &mut Vec<String>, tag: &str, be: &Arc<InMemoryBackend>, repo: &Repo) -> anyhow::Result<()> {
+        let key = repo.key();
+        let mut packs = be.list_with_size(FileType::Pack)?;
+        packs.sort();
+        for (id, size) in packs {
+            let bytes = be.read_full(FileType::Pack, &id)?;
+            out.push(format!("pack {tag} {} {size} {} | {}", id.to_hex().as_str(), hexs(&bytes), dec_pair(&key, &bytes)));
+            let n = bytes.len();
+            if n >= 4 {
+                let h = u32::from_le_bytes(bytes[n - 4..].try_into().unwrap());
+                let hints: Vec<Option<u32>> = vec![None, Some(h), Some(0), Some(h.saturating_sub(1)), Some((h + 37).min(size.saturating_sub(4))), Some(size.saturating_sub(4))];
+                for hint in hints {
+                    let dynbe: Arc<dyn WriteBackend> = be.clone();
+                    let r = guard(|| hk::header_from_file(dynbe, &key, id, hint, size));
+                    out.push(format!("implff {tag} {} {} {}", id.to_hex().as_str(), hint.map_or(-1, i64::from), r.map_or_else(|e| e, |b| fmt_blobs(&b))));
+                }
+            }
+        }
+        let mut ix: Vec<(String, IndexFile)> = Vec::new();
+        for f in repo.stream_files::<IndexFile>()? {
+            let (id, f) = f?;
+            ix.push((id.to_hex().to_string(), f));
+        }
+        ix.sort_by(|a, b| a.0.cmp(&b.0));
+        for (id, f) in ix {
+            out.push(format!("indexfile {tag} {id}"));
+            for (del, list) in [(0, &f.packs), (1, &f.packs_to_delete)] {
+                for p in list {
+                    out.push(format!("index {tag} {id} {del} {} {} {}", p.id.to_hex().as_str(), p.size.map_or("-".to_string(), |s| s.to_string()), fmt_blobs(&p.blobs)));
+                }
+            }
+        }
+        Ok(())
+    }
+
+    fn digests(out: &mut Vec<String>, tag: &str, repo: Repo) -> anyhow::Result<Repo> {
+        let repo = repo.to_indexed()?;
+        let mut snaps = repo.get_all_snapshots()?;
+        snaps.sort_by_key(|s| s.id.to_hex().to_string());
+        for sn in &snaps {
+            let root = repo.node_from_snapshot_and_path(sn, "")?;
+            let mut h = Sha256::new();
+            let mut nfiles = 0;
+            for item in repo.ls(&root, &LsOptions::default().recursive(true))? {
+                let (path, node) = item?;
+                h.update(path.to_string_lossy().as_bytes());
+                if node.is_file() {
+                    let mut buf = Vec::new();
+                    repo.dump(&node, &mut buf)?;
+                    h.update((buf.len() as u64).to_le_bytes());
+                    h.update(Sha256::digest(&buf));
+                    nfiles += 1;
+                }
+            }
+            out.push(format!("snap {tag} {} {} {}", sn.id.to_hex().as_str(), nfiles, hex::encode(h.finalize())));
+        }
+        Ok(repo.drop_index())
+    }
+
+    fn check(out: &mut Vec<String>, tag: &str, repo: &Repo) {
+        let r = guard(|| {
+            repo.check(CheckOptions::default().read_data(true)).map_err(|e| e.to_string()).and_then(|r| r.is_ok().map_err(|e| e.to_string()))
+        });
+        out.push(format!("check {tag} {}", r.map_or_else(|e| e, |()| "ok".to_string())));
+    }
+
+    fn mutate(dir: &std::path::Path, r: &mut SplitMix, nfiles: u64, maxsize: u64, round: u64) -> anyhow::Result<()> {
+        for i in 0..nfiles {
+            // in later rounds only some files change
+            if round > 0 && r.below(3) != 0 {
+                continue;
+            }
+            let sub = dir.join(format!("d{}", i % 3));
+            std::fs::create_dir_all(&sub)?;
+            let size = match r.below(6) {
+                0 => 0,
+                1 => 1,
+                2 => r.below(64),
+                _ => r.below(maxsize + 1),
+            } as usize;
+            let kind = r.below(4);
+            let data: Vec<u8> = match kind {
+                0 => vec![b'a' + (r.below(3) as u8); size],                       // compressible, often duplicate chunks
+                1 => (0..size).map(|j| (j % 251) as u8).collect(),                // shared prefix between files
+                _ => (0..size).map(|_| r.next() as u8).collect(),
+            };
+            std::fs::File::create(sub.join(format!("f{i}")))?.write_all(&data)?;
+        }
+        Ok(())
+    }
+
+    fn run_case(line: &str, out: &mut Vec<String>) -> anyhow::Result<()> {
+        let mut t = Toks::new(line);
+        let seed = t.u();
+        let comp = t.i();
+        let (dpack, tpack, chunk, nfiles, maxsize) = (t.u(), t.u(), t.u(), t.u(), t.u());
+        let mut r = SplitMix(seed);
+        let (be, mut repo) = new_repo(comp, dpack, tpack, chunk)?;
+        let src = tempfile::tempdir()?;
+        let mut round = 0;
+        let mut ntag = 0;
+        while let Some(step) = t.opt_s() {
+            ntag += 1;
+            let tag = format!("{ntag}{step}");
+            match &step[..1] {
+                "B" => {
+                    mutate(src.path(), &mut r, nfiles, maxsize, round)?;
+                    round += 1;
+                    let ir = repo.to_indexed_ids()?;
+                    let opts = BackupOptions::default().as_path(std::path::PathBuf::from("src"));
+                    let _ = ir.backup(&opts, &PathList::from_iter(Some(src.path().to_path_buf())), SnapshotFile::default())?;
+                    repo = ir.drop_index();
+                }
+                "F" => {
+                    let mut snaps = repo.get_all_snapshots()?;
+                    snaps.sort_by_key(|s| s.time.clone());
+                    if snaps.len() > 1 {
+                        repo.delete_snapshots(&[snaps[0].id])?;
+                    }
+                }
+                "P" => {
+                    let fast = step == "Pf";
+                    let po = PruneOptions::default()
+                        .instant_delete(true)
+                        .max_unused(LimitOption::Percentage(0))
+                        .keep_delete(rustic_core::jiff::Span::default())
+                        .keep_pack(rustic_core::jiff::Span::default())
+                        .repack_all(r.below(2) == 0)
+                        .fast_repack(fast);
+                    let plan = repo.prune_plan(&po)?;
+                    repo.prune(&po, plan)?;
+                }
+                "C" => {
+                    let (be2, repo2) = new_repo(if comp > 0 { -1 } else { 3 }, tpack.max(200), dpack.max(200), chunk)?;
+                    let ir = repo.to_indexed()?;
+                    let snaps = ir.get_all_snapshots()?;
+                    let dst = repo2.to_indexed_ids()?;
+                    ir.copy(&dst, snaps.iter())?;
+                    let repo2 = dst.drop_index();
+                    repo = ir.drop_index();
+                    dump(out, &tag, &be2, &repo2)?;
+                    check(out, &tag, &repo2);
+                    let _ = digests(out, &tag, repo2)?;
+                    out.push(format!("enddump {tag}"));
+                    continue;
+                }
+                "D" => {}
+                "R" => {
+                    repo = digests(out, &format!("{tag}pre"), repo)?;
+                    let mask: u64 = step[1..].parse().unwrap_or(0);
+                    let mut ids: Vec<Id> = be.list_with_size(FileType::Index)?.into_iter().map(|x| x.0).collect();
+                    ids.sort();
+                    let mut removed = 0;
+                    for (i, id) in ids.iter().enumerate() {
+                        if mask == 0 || (mask >> (i % 60)) & 1 == 1 {
+                            be.remove(FileType::Index, id, true)?;
+                            removed += 1;
+                        }
+                    }
+                    out.push(format!("note {tag} removed {removed} of {} index files", ids.len()));
+                    repo.repair_index(&RepairIndexOptions::default(), false)?;
+                }
+                "T" => {
+                    let tiny = vec![0u8, 0, 0];
+                    let id = Id::from_hex(&sha(&tiny)).unwrap();
+                    be.write_bytes(FileType::Pack, &id, false, tiny.into())?;
+                    let r = guard(|| repo.repair_index(&RepairIndexOptions::default(), false).map_err(|e| e.to_string()));
+                    out.push(format!("tiny {tag} {}", r.map_or_else(|e| e, |()| "ok".to_string())));
+                    be.remove(FileType::Pack, &id, false)?;
+                    continue;
+                }
+                _ => anyhow::bail!("unknown step"),
+            }
+            dump(out, &tag, &be, &repo)?;
+            if &step[..1] != "B" || true {
+                check(out, &tag, &repo);
+            }
+            repo = digests(out, &tag, repo)?;
+            out.push(format!("enddump {tag}"));
+        }
+        Ok(())
+    }
+
+    pub fn main(path: &str) {
+        std::panic::set_hook(Box::new(|_| {}));
+        let rd: Box<dyn BufRead> = if path != "-" {
+            Box::new(std::io::BufReader::new(std::fs::File::open(path).expect("open cases")))
+        } else {
+            Box::new(std::io::BufReader::new(std::io::stdin()))
+        };
+        let so = std::io::stdout();
+        let mut so = std::io::BufWriter::new(so.lock());
+        for line in rd.lines() {
+            let line = line.expect("read");
+            if line.trim().is_empty() {
+                continue;
+            }
+            let mut out = Vec::new();
+            let st = match catch_unwind(AssertUnwindSafe(|| run_case(&line, &mut out))) {
+                Ok(Ok(())) => "ok".to_string(),
+                Ok(Err(e)) => format!("error {}", e.to_string().replace('\n', " ")),
+                Err(_) => "panic".to_string(),
+            };
+            for l in out {
+                writeln!(so, "{l}").unwrap();
+            }
+            writeln!(so, "end {st}").unwrap();
+        }
     }
 }
 
